@@ -171,6 +171,12 @@ func (v *SortValue) Less(compareValue *SortValue) ternary.Value {
 			}
 			return ternary.ConvertFromBool(v.Integer < compareValue.Integer)
 		case FloatType:
+			if math.IsNaN(compareValue.Float) {
+				return ternary.TRUE
+			}
+			if v.Float == compareValue.Float {
+				return ternary.UNKNOWN
+			}
 			return ternary.ConvertFromBool(v.Float < compareValue.Float)
 		case StringType:
 			return ternary.ConvertFromBool(v.String < compareValue.String)
